@@ -65,6 +65,9 @@ pub struct Cfg {
     pub steps: Vec<u64>,
     pub cap: usize,
     pub disconnects: u8,
+    /// how many times the environment may refuse a datagram (the send callback returns an error to
+    /// the call that tried to send it; the datagram is lost)
+    pub faults: u8,
     /// Loss-free scripted prefix: number of vital chunks exchanged each way
     /// before exploration starts (sequence wrap-around window).
     pub prefix_chunks: u16,
@@ -92,6 +95,7 @@ impl Cfg {
             steps: vec![],
             cap: 3,
             disconnects: 0,
+            faults: 0,
             prefix_chunks: 0,
             prefix_unacked: 0,
             prefix_stale: false,
@@ -105,7 +109,7 @@ impl Cfg {
         json!({
             "variant": self.variant.name(), "vsends": self.vsends, "nsends": self.nsends, "sizes": self.sizes,
             "drops": self.drops, "dups": self.dups, "advances": self.advances, "steps": self.steps, "cap": self.cap,
-            "disconnects": self.disconnects, "prefix_chunks": self.prefix_chunks, "prefix_unacked": self.prefix_unacked, "prefix_stale": self.prefix_stale,
+            "disconnects": self.disconnects, "faults": self.faults, "prefix_chunks": self.prefix_chunks, "prefix_unacked": self.prefix_unacked, "prefix_stale": self.prefix_stale,
             "c01": self.c01, "c02": self.c02, "c03": self.c03, "c04": self.c04,
         })
     }
@@ -130,6 +134,7 @@ impl Cfg {
             steps: v["steps"].as_array()?.iter().map(|x| x.as_u64().unwrap()).collect(),
             cap: v["cap"].as_u64()? as usize,
             disconnects: v["disconnects"].as_u64()? as u8,
+            faults: v.get("faults").and_then(|x| x.as_u64()).unwrap_or(0) as u8,
             prefix_chunks: v["prefix_chunks"].as_u64()? as u16,
             prefix_unacked: v["prefix_unacked"].as_u64()? as u8,
             prefix_stale: v["prefix_stale"].as_bool().unwrap_or(false),
@@ -141,7 +146,7 @@ impl Cfg {
     }
     pub fn label(&self) -> String {
         format!(
-            "{} v{}/{} n{}/{} sizes{:?} drops{} dups{} adv{} steps{:?} cap{} disc{} prefix{}+{}{}",
+            "{} v{}/{} n{}/{} sizes{:?} drops{} dups{} adv{} steps{:?} cap{} disc{} prefix{}+{}{}{}",
             self.variant.name(),
             self.vsends[0],
             self.vsends[1],
@@ -156,7 +161,8 @@ impl Cfg {
             self.disconnects,
             self.prefix_chunks,
             self.prefix_unacked,
-            if self.prefix_stale { "+stale" } else { "" }
+            if self.prefix_stale { "+stale" } else { "" },
+            if self.faults > 0 { format!(" sendfaults{}", self.faults) } else { String::new() }
         )
     }
 }
@@ -173,6 +179,8 @@ pub enum Act {
     Drop { to: u8, idx: u8 },
     Dup { to: u8, idx: u8 },
     Disconnect(u8),
+    /// the environment will refuse the next datagram this side hands to the send callback
+    FailNext(u8),
 }
 
 impl Act {
@@ -194,6 +202,7 @@ impl Act {
             Act::Drop { to, idx } => format!("drop[{}]->{}", idx, s(to)),
             Act::Dup { to, idx } => format!("dup[{}]->{}", idx, s(to)),
             Act::Disconnect(x) => format!("{}.disconnect", s(x)),
+            Act::FailNext(x) => format!("{}.next-send-fails", s(x)),
         }
     }
 }
@@ -234,6 +243,7 @@ impl Act {
             "flush" => Some(Act::Flush(who)),
             "tick" => Some(Act::Tick(who)),
             "disconnect" => Some(Act::Disconnect(who)),
+            "next-send-fails" => Some(Act::FailNext(who)),
             _ => {
                 let r = what.strip_prefix("send(")?.strip_suffix(')')?;
                 let (kind, sz) = r.split_once(",size#")?;
@@ -278,6 +288,9 @@ pub struct Budgets {
     pub dups: u8,
     pub advances: u8,
     pub disconnects: u8,
+    pub faults: u8,
+    /// the next datagram of side i will be refused
+    pub fail_next: [bool; 2],
 }
 
 #[derive(Clone, Debug, Default, Eq, Hash, PartialEq)]
@@ -409,6 +422,7 @@ pub struct Stats {
     pub resend_flag_chunks: AtomicU64,
     pub both_online_states: AtomicU64,
     pub max_depth: AtomicU64,
+    pub refused_datagrams: AtomicU64,
 }
 
 pub struct Sample {
@@ -470,6 +484,8 @@ impl<E: Ep> NetModel<E> {
             dups: self.cfg.dups,
             advances: self.cfg.advances,
             disconnects: self.cfg.disconnects,
+            faults: self.cfg.faults,
+            fail_next: [false, false],
         }
     }
 
@@ -489,6 +505,8 @@ impl<E: Ep> NetModel<E> {
             dups: 0,
             advances: 255,
             disconnects: 0,
+            faults: 0,
+            fail_next: [false, false],
         };
         let saved = (self.cfg.c01, self.cfg.c02, self.cfg.c03, self.cfg.c04);
         let drain = |m: &Self, s: &mut St<E>| {
@@ -694,6 +712,10 @@ impl<E: Ep> NetModel<E> {
                     e.disconnect(cb, b"bye")
                 });
             }
+            Act::FailNext(side) => {
+                s.b.faults -= 1;
+                s.b.fail_next[side as usize] = true;
+            }
             Act::Advance => {
                 s.b.advances -= 1;
                 let d = self.next_deadline(&s).expect("advance without deadline");
@@ -756,6 +778,9 @@ impl<E: Ep> NetModel<E> {
     ) {
         let mut e = s.ep[side].vclone();
         let mut cb = Cb::with_draws(s.now, RANDOM[side], s.mon.draws[side]);
+        if s.b.fail_next[side] {
+            cb.fail_sends = 1;
+        }
         let mut ev = Vec::new();
         let mut warn = Vec::new();
         let lp = last.path.clone();
@@ -772,6 +797,11 @@ impl<E: Ep> NetModel<E> {
             return;
         }
         s.mon.draws[side] = s.mon.draws[side].wrapping_add(cb.random_calls as u8);
+        if s.b.fail_next[side] && cb.fail_sends == 0 {
+            // the refusal has happened: the call got the error, the datagram is lost
+            s.b.fail_next[side] = false;
+            self.stats.refused_datagrams.fetch_add(1, Ordering::Relaxed);
+        }
         let view = e.view(s.now);
         let answered = side == SERVER
             && (view.state == E::ONLINE || view.state_name == "Pending")
@@ -1063,6 +1093,8 @@ impl<E: Ep> NetModel<E> {
             dups: 0,
             advances: 255,
             disconnects: 0,
+            faults: 0,
+            fail_next: [false, false],
         };
         let t0 = s.now;
         for round in 0..=MAX_RANK_ROUNDS {
@@ -1309,6 +1341,9 @@ impl<E: Ep> Model for NetModel<E> {
             }
             if s.b.disconnects > 0 && v.state != 0 && v.state_name != "Disconnected" {
                 out.push(Act::Disconnect(side as u8));
+            }
+            if s.b.faults > 0 && !s.b.fail_next[side] && v.state_name != "Disconnected" && (v.state != 0 || side == CLIENT) {
+                out.push(Act::FailNext(side as u8));
             }
         }
         if s.b.advances > 0 {
